@@ -5,6 +5,8 @@ Three tables (all under /verif, nothing is written to disk and /repo is not touc
   * seeded/<name>/patch.diff   the confirmed seeded changes whose checks_result.txt lists the property under caught_by
   * ppsa/mutants/fixes/<commit>.diff  the `fix:` commits of /repo, applied in reverse (the defect returns) for the
                                property the known-findings file records for that commit
+  * benign/<name>/patch.diff   behaviour-preserving refactorings (helper extraction, temporaries, keyword arguments, early
+                               returns, comprehensions ...) written by independent sub-agents; every property must stay silent
   * two behaviour-preserving rewrites of the whole package (ppsa/rewrite.py): re-generation through ast.unparse, and
     alpha-renaming of every function-local variable; both must leave every obligation discharged
 
@@ -143,6 +145,12 @@ def variants(prop, sp):
             continue
         ov = patch_overrides(sp, open(pp).read())
         out.append(("seeded %s" % os.path.basename(d), ov, "violation", None))
+    # behaviour-preserving refactorings written by independent maintainers (benign/<name>/patch.diff, each with a script that
+    # shows identical results before and after): every property must stay silent on them
+    for d in sorted(glob.glob(os.path.join(VERIF, "benign", "*"))):
+        pp = os.path.join(d, "patch.diff")
+        if os.path.exists(pp):
+            out.append(("benign %s" % os.path.basename(d), patch_overrides(sp, open(pp).read()), "silent", None))
     # behaviour-preserving rewrites of the whole package: layout (ast.unparse) and alpha-renaming of all function locals
     from .rewrite import package_overrides
     for mode in ("reformat", "rename"):
